@@ -111,6 +111,7 @@ struct Args {
     uint64_t from = 0, count = 1;
     std::string tier = "quick", mode, out;
     bool verbose = false;
+    bool beacon = false;     // write a progress line per case (used under valgrind, which may kill the process at an error)
     bool thorough() const { return tier == "thorough"; }
 };
 
@@ -224,6 +225,7 @@ static inline void parse_args(int argc, char **argv)
         else if(a == "--mode") g_args.mode = nxt();
         else if(a == "--out") g_args.out = nxt();
         else if(a == "--verbose") g_args.verbose = true;
+        else if(a == "--beacon") g_args.beacon = true;
     }
 }
 
@@ -295,6 +297,7 @@ static inline int main_loop(int argc, char **argv, uint64_t salt,
     for(uint64_t i = g_args.from; i < g_args.from + g_args.count; ++i) {
         g_case_index = (int64_t)i;
         g_progress.fetch_add(1, std::memory_order_relaxed);
+        if(g_args.beacon) out_line("{\"t\":\"progress\",\"index\":" + std::to_string(i) + "}");
         Rng r = case_rng(salt, i);
         run_case(i, r);
         ++g_evaluations;
